@@ -658,6 +658,17 @@ class _CallableInst:
         return 1
 
 
+class _ClassLike:
+    """Not a class, but dressed like one: issubclass() walks __bases__ of non-type objects instead of raising."""
+    __bases__ = (ValueError,)
+    __name__ = "ClassLike"
+    __qualname__ = "ClassLike"
+
+    def __call__(self, *a: Any, **k: Any) -> Any:
+        TRAP_LOG.append("classlike.__call__")
+        return ValueError("made by a trap")
+
+
 class _Holder:
     fn = staticmethod(_trap_fn)
 
@@ -695,6 +706,7 @@ def install_trapmod() -> None:
     m.ExcOk = _ExcOk  # type: ignore[attr-defined]
     m.sub = os  # type: ignore[attr-defined]
     m.sp = subprocess  # type: ignore[attr-defined]
+    m.classlike = _ClassLike()  # type: ignore[attr-defined]
     m.value = 42  # type: ignore[attr-defined]
     m.none = None  # type: ignore[attr-defined]
     m.lam = lambda *a: TRAP_LOG.append("lam")  # type: ignore[attr-defined]  # noqa: E731
@@ -733,6 +745,7 @@ CATALOGUE: List[Tuple[Optional[str], str]] = [
     ("trapmod", "sp.run"), ("trapmod", "value"), ("trapmod", "none"), ("trapmod", "lam"), ("trapmod", "partial"),
     ("trapmod", "deep.fn"), ("trapmod", "deep"), ("trapmod", "sub"), ("trapmod.deep", "fn"), ("trapmod", "__class__"),
     ("trapmod", "__dict__"), ("trapmod", "__getattribute__"), ("trapmod", "Cls.__new__"), ("trapmod", "Cls.__init__"),
+    ("trapmod", "classlike"), ("trapmod", "Holder.__bases__"), ("sys", "path"), ("sys", "flags"), ("os", "environ.copy"),
     ("sys", "exit"), ("sys", "modules"), ("sys", "getrecursionlimit"), ("shutil", "which"), ("pickle", "loads"),
     ("importlib", "import_module"), ("typing", "Any"), ("json", "loads"), ("threading", "Thread"), ("asyncio", "run"),
     ("taskiq.brokers.inmemory_broker", "InmemoryResultBackend"), ("taskiq.state", "TaskiqState"), ("taskiq", "InMemoryBroker"),
@@ -746,6 +759,9 @@ CATALOGUE: List[Tuple[Optional[str], str]] = [
     # unresolvable
     ("builtins", "NoSuchThing"), ("nosuchmodule", "Err"), ("trapmod", "missing.attr"), ("os", "system.nope"), (None, "Ghost"),
     (None, "os.system"), ("", "x"), ("builtins", ""), ("trapmod", "Holder..fn"), ("builtins", "ValueError.nope"),
+    # not loaded / not existing module, and a name that every object (None included) has as an attribute
+    ("nosuchmodule", "__class__"), ("nosuchmodule", "__doc__"), ("colorsys", "__init__"), ("nosuchmodule", "__class__.__name__"),
+    ("tabnanny", "__eq__"), ("nosuchmodule", "__bool__"), ("chunk", "__reduce__"), ("nosuchmodule", "__new__"),
     ("colorsys", "rgb_to_hls"), ("xml.dom.minidom", "parse"), ("tabnanny", "check"), ("chunk", "Chunk"), ("wave", "open"),
     ("encodings.cp1252", "Codec"), ("encodings.rot_13", "rot13"), ("encodings.koi8_r", "getregentry"), ("json.tool", "main"),
     ("email.mime", "text"), ("logging.config", "fileConfig"), ("multiprocessing.dummy", "Pool"), ("ctypes.util", "find_library"),
@@ -975,6 +991,8 @@ def run_c20(spec: Dict[str, Any]) -> "tuple[List[Violation], Dict[str, Any]]":
                     break
         if not ok:
             leaf = name.split(".")[-1]
+            if leaf.startswith("__") and leaf.endswith("__"):
+                leaf = ""  # every object has callables of these names (taskiq's own __init__ ...): the name says nothing
             for c in calls:
                 if leaf and getattr(c, "__name__", None) == leaf and not (isinstance(c, type) and issubclass(c, BaseException)) \
                         and not any(c is x for x in LEGIT_CALLEES):
